@@ -18,7 +18,7 @@ def architecture(instances=("single", 3, 1), freq=1009, bw=521):
         return base if n == "single" else "%s[0..%d]" % (base, n)
     local = [
         {"name": "Buf", "class": "Buffet", "attributes": {"width": 64, "depth": 128}},
-        {"name": "Cch", "class": "Cache", "attributes": {"width": 32, "depth": 64}},
+        {"name": "Cch", "class": "Cache", "attributes": {"width": 32, "depth": 123456.5}},
         {"name": "Mul", "class": "compute", "attributes": {"type": "mul"}},
         {"name": "Add", "class": "compute", "attributes": {"type": "add"}},
         {"name": "Is2", "class": "Intersector", "attributes": {"type": "two-finger"}},
@@ -230,6 +230,12 @@ def base_specs(quick):
                         "mapping": {"loop-order": {"Z": ["M", "K"]}}}, [{"K": 2, "M": 2}]))
     out.append(("mm3/KM", {"decl": d2, "exprs": [E("Z", ["m"], times(T("A", "k", "m"), T("B", "k", "m"), T("C", "k")))],
                            "mapping": {"loop-order": {"Z": ["K", "M"]}}}, [{"K": 2, "M": 2}]))
+    out.append(("mm/shapeM", {"decl": decl, "exprs": [mm], "mapping": {
+        "partitioning": {"Z": {"M": ["uniform_shape(2)"]}}, "loop-order": {"Z": ["M1", "K", "N", "M0"]}}}, [{"K": 2, "M": 3, "N": 1}]))
+    # a leader-follower rank above ranks where leader and follower are still co-iterated
+    djkl = {"A": ["J", "K", "L"], "B": ["J", "K"], "Z": ["J", "K", "L"]}
+    out.append(("jkl", {"decl": djkl, "exprs": [E("Z", ["j", "k", "l"], times(T("A", "j", "k", "l"), T("B", "j", "k")))],
+                        "mapping": {"loop-order": {"Z": ["J", "K", "L"]}}}, [{"J": 2, "K": 2, "L": 1}]))
     # three factors over different rank sets (the order of follower payloads matters), K outermost
     dx = {"A": ["K", "M"], "B": ["K", "N"], "C": ["K"], "Z": ["M", "N"]}
     out.append(("mm3x", {"decl": dx, "exprs": [E("Z", ["m", "n"], times(T("A", "k", "m"), T("B", "k", "n"), T("C", "k")))],
